@@ -1,3 +1,11 @@
+module List = Stdlib.List
+module String = Stdlib.String
+module Option = Stdlib.Option
+module Array = Stdlib.Array
+module Bytes = Stdlib.Bytes
+module Char = Stdlib.Char
+module Buffer = Stdlib.Buffer
+module Printf = Stdlib.Printf
 (* Glue between text lines and extracted Coq values.  Trusted for the tie only. *)
 let uint_of_string (s : string) : Decimal.uint =
   let r = ref Decimal.Nil in
